@@ -14,6 +14,94 @@ import numpy as np
 from corr.C02_impl import gmsh_mesh, rebuild, measure_of
 
 
+def all_groups(mesh):
+    return list(mesh.dict_groupElem.values())
+
+
+def group_spread(mesh):
+    """max |g.coord - mesh.coord[g.nodes]| over ALL groups (every group must see the same coordinates)"""
+    X = np.asarray(mesh.coord, dtype=float)
+    sp = 0.0
+    for g in all_groups(mesh):
+        gc = np.asarray(g.coord, dtype=float)
+        nodes = np.asarray(g.nodes)
+        ref = X[nodes] if gc.shape[0] == nodes.size else X
+        if gc.shape == ref.shape and gc.size:
+            sp = max(sp, float(np.abs(gc - ref).max()))
+    return sp
+
+
+def apply_moves(mesh, moves):
+    """in-place motions through the public Mesh API; after each one every group must still share the
+    coordinates.  moves: ["translate", [dx,dy,dz]] | ["rotate", deg, [axis]] | ["mirror", [n]] |
+    ["coord", 3x3 matrix B (mesh.coord = mesh.coord @ B.T)]"""
+    log = []
+    for mv in moves or []:
+        if mv[0] == "translate":
+            mesh.Translate(*mv[1])
+        elif mv[0] == "rotate":
+            mesh.Rotate(mv[1], mesh.center, tuple(mv[2]))
+        elif mv[0] == "mirror":
+            mesh.Symmetry(mesh.center, tuple(mv[1]))
+        elif mv[0] == "coord":
+            mesh.coord = np.asarray(mesh.coord, dtype=float) @ np.asarray(mv[1], dtype=float).T
+        else:
+            raise ValueError(mv[0])
+        log.append([mv[0], group_spread(mesh)])
+    return log
+
+
+def readonly_queries(mesh, rs, simu=None):
+    """legal READ-ONLY calls on the mesh / groups / simulation; the coordinates of the mesh and of every
+    group must be bit-identical before and after each call.  Returns [name, max change, error-or-None]."""
+    from EasyFEA.FEM._utils import MatrixType
+    X0 = np.asarray(mesh.coord, dtype=float).copy()
+    # a smooth NON-affine displacement of the order of 5% of the size
+    size = float(np.ptp(X0, axis=0).max())
+    Umat = np.zeros_like(X0)
+    dim = mesh.dim
+    Umat[:, :dim] = 0.05 * size * np.sin(1.3 * X0[:, :dim] / size + 0.4) * (1 + 0.5 * np.cos(X0[:, [0]] / size))
+    main, lower = mesh.Get_list_groupElem(), (mesh.Get_list_groupElem(dim - 1) if dim > 1 else [])
+    pts = X0[np.asarray(main[0].connect)[:: max(1, main[0].Ne // 4)][:4]].mean(axis=1)
+    calls = []
+    for g in main:
+        for mt in (MatrixType.rigi, MatrixType.mass):
+            calls.append(("Get_GaussCoordinates_e_pg(%s)" % mt.name, lambda g=g, mt=mt: g.Get_GaussCoordinates_e_pg(mt)))
+            calls.append(("Get_GaussCoordinates_e_pg(%s, displacementMatrix)" % mt.name, lambda g=g, mt=mt: g.Get_GaussCoordinates_e_pg(mt, displacementMatrix=Umat)))
+        calls.append(("Get_dN_e_pg", lambda g=g: g.Get_dN_e_pg(MatrixType.rigi)))
+        calls.append(("Get_jacobian_e_pg(signed)", lambda g=g: g.Get_jacobian_e_pg(MatrixType.mass, absoluteValues=False)))
+        calls.append(("Integrate_e", lambda g=g: g.Integrate_e(lambda x, y, z: x + 2 * y - z)))
+    for g in lower:
+        calls.append(("boundary Get_GaussCoordinates_e_pg(displacementMatrix)", lambda g=g: g.Get_GaussCoordinates_e_pg(MatrixType.mass, displacementMatrix=Umat)))
+        calls.append(("boundary Get_normals_e_pg", lambda g=g: g.Get_normals_e_pg(MatrixType.mass)))
+        calls.append(("boundary Get_normals_e_pg(displacementMatrix)", lambda g=g: g.Get_normals_e_pg(MatrixType.mass, displacementMatrix=Umat)))
+    calls += [("Mesh.Get_normals", lambda: mesh.Get_normals()),
+              ("Mesh.Get_normals(displacementMatrix)", lambda: mesh.Get_normals(displacementMatrix=Umat)),
+              ("Mesh.Evaluate_dofsValues_at_coordinates", lambda: mesh.Evaluate_dofsValues_at_coordinates(pts, X0[:, 0].copy())),
+              ("Mesh.Get_Quality", lambda: mesh.Get_Quality()),
+              ("Mesh.Get_meshSize", lambda: mesh.Get_meshSize()),
+              ("Mesh.center/measure", lambda: (mesh.center, measure_of(mesh)))]
+    if simu is not None:
+        for nm in ("Strain", "Stress", "Wdef", "displacement_matrix", "Svm"):
+            calls.append(("simu.Result(%s)" % nm, lambda nm=nm: simu.Result(nm)))
+        calls.append(("simu.Results_displacement_matrix", lambda: simu.Results_displacement_matrix()))
+    out = []
+    for name, fn in calls:
+        before = [np.asarray(g.coord, dtype=float).copy() for g in all_groups(mesh)]
+        Xb = np.asarray(mesh.coord, dtype=float).copy()
+        err = None
+        try:
+            fn()
+        except Exception as ex:      # the call itself failing is not this property's predicate
+            err = "%s: %s" % (type(ex).__name__, str(ex)[:120])
+        ch = float(np.abs(np.asarray(mesh.coord, dtype=float) - Xb).max())
+        for g, b in zip(all_groups(mesh), before):
+            a = np.asarray(g.coord, dtype=float)
+            ch = max(ch, float(np.abs(a - b).max()) if a.shape == b.shape and a.size else 0.0)
+        out.append([name, ch, err])
+    return out
+
+
 def boundary_nodes(mesh):
     dim = mesh.dim
     if dim == 1:
@@ -77,8 +165,11 @@ def run_elastic(case, mesh):
     from EasyFEA import Simulations
     dim = mesh.dim
     mat = make_material(case, dim)
-    simu = Simulations.Elastic(mesh, mat)
     rs = np.random.RandomState(case["field_seed"])
+    pre = {"moves_log": apply_moves(mesh, case.get("moves")), "spread_before": group_spread(mesh)}
+    if case.get("queries"):
+        pre["queries_log"] = readonly_queries(mesh, rs)
+    simu = Simulations.Elastic(mesh, mat)
     A = rs.uniform(-1, 1, (dim, dim)) * 1e-2
     c = rs.uniform(-1, 1, dim) * 1e-2
     X = np.asarray(mesh.coord, dtype=float)[:, :dim]
@@ -107,6 +198,7 @@ def run_elastic(case, mesh):
            "scale_u": float(np.abs(U).max()),
            "err_u_interior": float(np.abs(u[interior] - U[interior]).max()) if interior.size else 0.0,
            "err_u_all": float(np.abs(u[used] - U[used]).max()),
+           "pre": pre,
            "exact_strain_KM": e.tolist(), "exact_stress_KM": s.tolist(), "measure": measure_of(mesh),
            "Wdef": float(simu.Result("Wdef")), "Wdef_exact": float(0.5 * th * measure_of(mesh) * (e @ C @ e))}
     for nm, comp_prefix, exact in (("strain", "E", plain_e), ("stress", "S", plain_s)):
@@ -122,6 +214,17 @@ def run_elastic(case, mesh):
         res["shape_" + nm] = list(v.shape)
         res["err_%s_plain" % nm] = float(np.abs(v - np.asarray(exactP)[None, :]).max()) if v.shape[1] == len(exactP) else None
         res["err_%s_KM" % nm] = float(np.abs(v - np.asarray(exactKM)[None, :]).max()) if v.shape[1] == len(exactKM) else None
+    if case.get("queries"):
+        # read-only queries on the mesh AND the solved simulation, then the patch test again, with a NEW
+        # simulation on the same mesh object and the boundary data of the ORIGINAL coordinates
+        res["pre"]["queries_log_after_solve"] = readonly_queries(mesh, rs, simu)
+        simq = Simulations.Elastic(mesh, mat)
+        simq.add_dirichlet(bn, [U[bn, m] for m in range(dim)], unk)
+        uq = np.asarray(simq.Solve(), dtype=float).reshape(-1, dim)
+        res["requery_err_u"] = float(np.abs(uq[used] - U[used]).max())
+        res["requery_err_strain"] = max(float(np.abs(np.asarray(simq.Result("E" + cn, nodeValues=False), dtype=float) - ex).max()) for cn, ex in zip(comps, plain_e))
+        res["requery_Wdef"] = float(simq.Result("Wdef"))
+        res["requery_coord_change"] = float(np.abs(np.asarray(mesh.coord, dtype=float)[:, :dim] - X).max())
     if case.get("remap") is not None:
         # near-identity rigid motion of the SAME mesh object after the first solve (relative change
         # ~1e-6), then a second patch test on the same simulation: every geometry-derived cached value
@@ -180,8 +283,11 @@ def run_thermal(case, mesh):
     from EasyFEA import Models, Simulations
     dim = mesh.dim
     p = case["params"]
-    simu = Simulations.Thermal(mesh, Models.Thermal(k=p["k"], c=p["c"], thickness=p.get("thickness", 1.0)))
     rs = np.random.RandomState(case["field_seed"])
+    pre = {"moves_log": apply_moves(mesh, case.get("moves")), "spread_before": group_spread(mesh)}
+    if case.get("queries"):
+        pre["queries_log"] = readonly_queries(mesh, rs)
+    simu = Simulations.Thermal(mesh, Models.Thermal(k=p["k"], c=p["c"], thickness=p.get("thickness", 1.0)))
     a = rs.uniform(-1, 1, dim)
     X = np.asarray(mesh.coord, dtype=float)[:, :dim]
     T = X @ a + 0.37
@@ -193,6 +299,7 @@ def run_thermal(case, mesh):
     K = simu.Get_K_C_M_F()[0]
     r = K @ T
     return {"Nn": int(mesh.Nn), "Ne": int(mesh.Ne), "dim": dim, "n_interior": int(interior.size), "n_boundary": int(bn.size),
+            "pre": pre,
             "scale_u": float(np.abs(T).max()),
             "err_u_interior": float(np.abs(t[interior] - T[interior]).max()) if interior.size else 0.0,
             "err_u_all": float(np.abs(t[used] - T[used]).max()),
